@@ -183,6 +183,12 @@ pub fn install_panic_hook() {
             .location()
             .map(|l| format!("{}:{}", l.file(), l.line()))
             .unwrap_or_default();
+        // the first few are also printed, so that a panic outside any guard (a harness bug, which
+        // kills the shard) leaves a trace in the shard's stderr file
+        static PRINTED: std::sync::atomic::AtomicU32 = std::sync::atomic::AtomicU32::new(0);
+        if PRINTED.fetch_add(1, std::sync::atomic::Ordering::Relaxed) < 10 {
+            eprintln!("panic: {msg} @ {loc}");
+        }
         LAST_PANIC.with(|p| *p.borrow_mut() = Some(format!("{msg} @ {loc}")));
     }));
 }
